@@ -29,6 +29,7 @@ func checkC15(c *Ctx, r *Report) {
 	perEnvelopeDeadline(c, r, "C15.R3.deadline-per-envelope")
 	r.rule("C15.R2.envelope-id", 2, "inAxfr and inIxfr compare the envelope's header ID with the query's")
 	envelopeIDCheck(c, r, "C15.R2.envelope-id")
+	tsigStubKept(c, r, "C15.R4.stub-kept", "after the first transfer the query has silently lost its TSIG; the next refresh with the same query goes out unsigned and an untampered, correctly keyed transfer fails with ErrNoSig (or is refused by the primary)")
 }
 
 // backEdges: edges u->h where h dominates u.
